@@ -73,6 +73,8 @@ func runC06(r *fw.Run, p *fw.Program) {
 	c06ApiSign(r, p)
 	c06WrapConv(r, p)
 	c06NilRes(r, p)
+	c06USub(r, p)
+	c06RdSlice(r, p)
 	c06ExploreArrays(p)
 	c06Sym(r, p)
 	c06OutType(r, p)
